@@ -9,7 +9,9 @@ use vkit::gen::{self, GenOpts};
 use vkit::problem::{self, is_infeasible_status, status_name};
 use vkit::{Ctx, Rng};
 
-fn interior_violation(cones: &[ConeT], e: &IterEvent) -> Option<serde_json::Value> {
+static NOT_JUDGED: std::sync::atomic::AtomicU64 = std::sync::atomic::AtomicU64::new(0);
+
+fn interior_violation(cones: &[ConeT], e: &IterEvent, prev: Option<&IterEvent>) -> Option<serde_json::Value> {
     if !(e.τ > 0.0) || !(e.κ > 0.0) {
         return Some(json!({"what": "tau/kappa not positive", "tau": e.τ, "kappa": e.κ, "iteration": e.iterations}));
     }
@@ -32,11 +34,31 @@ fn interior_violation(cones: &[ConeT], e: &IterEvent) -> Option<serde_json::Valu
             }
             continue;
         }
+        // second-order, exponential, power and PSD blocks are judged while the squares and products of their
+        // components are representable numbers: a block that has shrunk below 1e-150 (reached only by runs that
+        // are never allowed to stop, after 80+ iterations) is underflow noise to the implementation's own
+        // quadratic forms, and "up to rounding" has no relative meaning there
+        let blk = s.iter().chain(z.iter()).fold(0.0f64, |m, v| m.max(v.abs()));
+        let blk_min = s.iter().fold(0.0f64, |m, v| m.max(v.abs())).min(z.iter().fold(0.0f64, |m, v| m.max(v.abs())));
+        if !(blk_min >= 1e-150 && blk <= 1e150) {
+            NOT_JUDGED.fetch_add(1, std::sync::atomic::Ordering::Relaxed);
+            continue;
+        }
+        // "up to rounding": the iterate is s_prev + alpha*ds evaluated in floating point, so its error is
+        // proportional to the PREVIOUS block's size too (a step through the apex shrinks a block 100-fold at
+        // max_step_fraction = 0.99 and leaves rounding of the old magnitude behind)
+        let amax = |v: &[f64]| v.iter().fold(0.0f64, |m, x| m.max(x.abs()));
+        let (ps, pz) = match prev {
+            Some(pe) if pe.s.len() == e.s.len() => (amax(&pe.s[r.clone()]), amax(&pe.z[r.clone()])),
+            _ => (0.0, 0.0),
+        };
         let (ms, scs) = margin(c, s, false);
+        let scs = scs.max(ps);
         if !(ms > -1e-13 * scs) {
             return Some(json!({"what": "s not strictly inside K", "cone": ci, "kind": vkit::cones::cone_name(c), "margin": ms, "scale": scs, "s": s, "iteration": e.iterations}));
         }
         let (mz, scz) = margin(c, z, true);
+        let scz = scz.max(pz);
         if !(mz > -1e-13 * scz) {
             return Some(json!({"what": "z not strictly inside K*", "cone": ci, "kind": vkit::cones::cone_name(c), "margin": mz, "scale": scz, "z": z, "iteration": e.iterations}));
         }
@@ -60,6 +82,30 @@ fn ulp_close(a: f64, b: f64, ulps: f64) -> bool {
     (a - b).abs() <= ulps * f64::EPSILON * a.abs().max(b.abs())
 }
 
+/// zero the tail rows of A and b of (most) second-order cones: slack, dual and every step direction then lie ON
+/// the cone's axis
+fn axis_only_second_order_cones(p: &mut problem::Problem, rng: &mut Rng) -> bool {
+    let mut a = Dense::from_csc(&p.A);
+    let mut any = false;
+    for (c, r) in p.cones.clone().iter().zip(cone_ranges(&p.cones)) {
+        if let ConeT::SecondOrderConeT(d) = c {
+            if *d >= 2 && rng.bool(0.7) {
+                for i in r.start + 1..r.end {
+                    for j in 0..p.n() {
+                        a.set(i, j, 0.0);
+                    }
+                    p.b[i] = 0.0;
+                }
+                any = true;
+            }
+        }
+    }
+    if any {
+        p.A = a.to_csc();
+    }
+    any
+}
+
 pub fn run(ctx: &mut Ctx) {
     let wl = "trajectories";
     let bound = clarabel::get_infinity();
@@ -73,7 +119,12 @@ pub fn run(ctx: &mut Ctx) {
         let mut o = GenOpts { kinds: gen::all_kinds(), ..Default::default() };
         o.nmax = *rng.choose(&[3, 8, 16]);
         o.mmax = *rng.choose(&[8, 20, 40]);
-        let fam = rng.usize(0, 9);
+        // zero-tolerance slice (see below): mostly symmetric cones, whose runs go on longest
+        let zero_tol = rng.bool(0.2);
+        if zero_tol && rng.bool(0.7) {
+            o.kinds = if rng.bool(0.5) { vec!["NN"] } else { vec!["NN", "Zero", "SOC"] };
+        }
+        let fam = if zero_tol { rng.usize(0, 6) } else { rng.usize(0, 9) };
         let p = match fam {
             0..=6 => gen::planted(&mut rng, &o).problem,
             7 => gen::primal_infeasible(&mut rng, &o).0,
@@ -126,32 +177,33 @@ pub fn run(ctx: &mut Ctx) {
         // second-order cones used as plain bounds: (a.x + b, 0, ..., 0) in SOC, i.e. the tail rows of A and b are
         // zero, so slack, dual and every step direction lie ON the cone's axis (the quadratic of the step-length
         // computation degenerates: zero discriminant up to rounding)
-        if rng.bool(0.12) {
-            let mut a = Dense::from_csc(&p.A);
-            let mut any = false;
-            for (c, r) in p.cones.clone().iter().zip(cone_ranges(&p.cones)) {
-                if let ConeT::SecondOrderConeT(d) = c {
-                    if *d >= 2 && rng.bool(0.7) {
-                        for i in r.start + 1..r.end {
-                            for j in 0..p.n() {
-                                a.set(i, j, 0.0);
-                            }
-                            p.b[i] = 0.0;
-                        }
-                        any = true;
-                    }
-                }
-            }
-            if any {
-                p.A = a.to_csc();
-                ctx.bump("instances_with_axis_only_second_order_cones");
-            }
+        if rng.bool(0.12) && axis_only_second_order_cones(&mut p, &mut rng) {
+            ctx.bump("instances_with_axis_only_second_order_cones");
         }
         let mut st = gen::random_settings(&mut rng, true);
         st.max_step_fraction = *rng.choose(&[0.5, 0.9, 0.99, 0.999]);
         st.linesearch_backtrack_step = *rng.choose(&[0.5, 0.8, 0.95]);
         st.time_limit = f64::INFINITY;
         st.max_iter = *rng.choose(&[25, 60, 200]);
+        // a slice that never meets a stopping test (all tolerances zero): the run goes on until max_iter or a
+        // numerical stop, and the complementary components s_i z_i = mu fall far below machine epsilon - absolute
+        // thresholds in the ratio tests (|dz_i| < eps treated as "not limiting") show only there
+        if zero_tol {
+            st.tol_gap_abs = 0.0;
+            st.tol_gap_rel = 0.0;
+            st.tol_feas = 0.0;
+            st.tol_infeas_abs = 0.0;
+            st.tol_infeas_rel = 0.0;
+            st.tol_ktratio = 0.0;
+            st.reduced_tol_gap_abs = 0.0;
+            st.reduced_tol_gap_rel = 0.0;
+            st.reduced_tol_feas = 0.0;
+            st.reduced_tol_infeas_abs = 0.0;
+            st.reduced_tol_infeas_rel = 0.0;
+            st.reduced_tol_ktratio = 0.0;
+            st.max_iter = *rng.choose(&[40, 60]);
+            ctx.bump("zero_tolerance_instances");
+        }
         let long = match problem::run(&p, &st) {
             Ok(r) => r,
             Err(msg) => {
@@ -168,7 +220,7 @@ pub fn run(ctx: &mut Ctx) {
         let mut switches = 0;
         for (k, e) in its.iter().enumerate() {
             ctx.eval(1);
-            if let Some(v) = interior_violation(&cones, e) {
+            if let Some(v) = interior_violation(&cones, e, if k > 0 { Some(its[k - 1]) } else { None }) {
                 // recorded finding: kappa decays geometrically for > 100 iterations on a numerically stuck
                 // instance and finally underflows to exactly 0.0 (tau stays positive)
                 let underflow = e.κ == 0.0 && e.τ > 0.0 && k > 0 && its[k - 1].κ > 0.0 && its[k - 1].κ < 1e-290 && e.iterations > 100;
@@ -290,6 +342,86 @@ pub fn run(ctx: &mut Ctx) {
         }
         if case < 2 {
             ctx.sample(json!({"workload": wl, "n": p.n(), "m": p.m(), "cones": problem::cones_json(&p.cones), "status": status_name(long.status), "iterations": long.iterations, "prefix_runs": kmax + 1}));
+        }
+    }
+
+    // ---- runs that never meet a stopping test: interior down to the round-off floor ----
+    // Small symmetric-cone problems with the optimality tolerances at zero and otherwise default (or sampled)
+    // settings: the run continues until max_iter or until the solver gives up by itself; by then the
+    // complementary components have fallen to 1e-17 and below, where absolute thresholds in the ratio tests
+    // ("a direction below eps limits nothing") let a damped step cross the boundary.  Cheap (no prefix runs),
+    // so there are many of them.
+    let wl = "to_the_roundoff_floor";
+    let total = ctx.count(600, 12000);
+    for case in ctx.cases(wl, total) {
+        if ctx.out_of_budget() {
+            continue;
+        }
+        ctx.begin(wl, case);
+        let mut rng = Rng::for_case(ctx.seed, "C07/to_the_roundoff_floor", case);
+        let mut o = GenOpts { kinds: match rng.usize(0, 3) { 0 => vec!["NN"], 1 => vec!["NN", "Zero"], _ => vec!["NN", "SOC", "SOC", "Zero"] }, ..Default::default() };
+        o.nmax = *rng.choose(&[3, 6, 10]);
+        o.mmax = *rng.choose(&[7, 13, 24]);
+        o.allow_empty_cones = false;
+        let mut p = gen::planted(&mut rng, &o).problem;
+        if rng.bool(0.5) {
+            p.P = clarabel::algebra::CscMatrix::zeros((p.n(), p.n()));
+        }
+        if rng.bool(0.5) && axis_only_second_order_cones(&mut p, &mut rng) {
+            ctx.bump("floor_instances_with_axis_only_second_order_cones");
+        }
+        let mut st = if rng.bool(0.5) { clarabel::solver::DefaultSettings::<f64>::default() } else { gen::random_settings(&mut rng, true) };
+        st.verbose = false;
+        st.time_limit = f64::INFINITY;
+        st.max_iter = *rng.choose(&[60, 100]);
+        st.tol_gap_abs = 0.0;
+        st.tol_gap_rel = 0.0;
+        st.tol_feas = 0.0;
+        if rng.bool(0.5) {
+            st.tol_infeas_abs = 0.0;
+            st.tol_infeas_rel = 0.0;
+            st.tol_ktratio = 0.0;
+        }
+        let r = match problem::run(&p, &st) {
+            Ok(r) => r,
+            Err(msg) => {
+                ctx.inconclusive(&format!("panic: {msg}"), wl, case);
+                continue;
+            }
+        };
+        ctx.nontrivial_hash(p.hash() ^ case);
+        ctx.bump(&format!("floor_status_{}", status_name(r.status)));
+        let cones = r.internal_cones.clone();
+        let its: Vec<&IterEvent> = r.iter_events().collect();
+        let mut smallest = f64::INFINITY;
+        for (k, e) in its.iter().enumerate() {
+            ctx.eval(1);
+            for v in e.s.iter().chain(e.z.iter()) {
+                if *v > 0.0 {
+                    smallest = smallest.min(*v);
+                }
+            }
+            if let Some(v) = interior_violation(&cones, e, if k > 0 { Some(its[k - 1]) } else { None }) {
+                let underflow = e.κ == 0.0 && e.τ > 0.0 && k > 0 && its[k - 1].κ > 0.0 && its[k - 1].κ < 1e-290 && e.iterations > 100;
+                let sig = if underflow { "iterate_not_interior:kappa_underflow" } else { "iterate_not_interior" };
+                ctx.violation("iterate_not_interior", sig, wl, case, case_json(&p, &st, &r, v));
+                break;
+            }
+            if k > 0 && e.iterations == its[k - 1].iterations + 1 && !same_bits(e, its[k - 1]) && !(e.step_length > 0.0 && e.step_length <= 1.0) {
+                ctx.violation("step_length_out_of_range", "step_length_out_of_range", wl, case, case_json(&p, &st, &r, json!({"iteration": e.iterations, "alpha": e.step_length})));
+                break;
+            }
+        }
+        if smallest < 1e-16 {
+            ctx.bump("floor_runs_with_a_positive_component_below_1e-16");
+        }
+        ctx.observe_max("floor_minus_log10_smallest_component", -smallest.log10());
+        let nj = NOT_JUDGED.swap(0, std::sync::atomic::Ordering::Relaxed);
+        if nj > 0 {
+            ctx.bump_n("cone_blocks_beyond_1e-150_or_1e150_not_judged", nj);
+        }
+        if case < 1 {
+            ctx.sample(json!({"workload": wl, "n": p.n(), "m": p.m(), "cones": problem::cones_json(&p.cones), "status": status_name(r.status), "iterations": r.iterations, "smallest_positive_component": smallest}));
         }
     }
 }
